@@ -410,6 +410,59 @@ def handleKrh (args res : List String) (line : String) : String :=
       s!"shift={s.shift},maxn={s.maxn},mask={hexNat s.mask},acc={hexNat macc},code={hexNat mcode},want={hexNat want}" line
   | _, _ => "BAD krh numbers | " ++ cut line
 
+
+/-- `exm T P Kb E E2 = card char exponent order` — meta data of `Extension<GFqDom<T>>(GFqDom<T>(P,Kb), E)` (and a second
+    extension of degree `E2` on top when `E2 > 1`); model `extMeta`, specification `p^(Kb·E·E2), p, Kb·E·E2, last degree` -/
+def handleExm (args res : List String) (line : String) : String :=
+  match natsOf args, natsOf res with
+  | some [_, p, kb, e, e2], some [card, ch, ex, od] =>
+    let base : Givaro.Model.GFqExtension.FieldMeta := { card := p ^ kb, char := p, expo := kb }
+    let (m1, o1) := Givaro.Model.GFqExtension.extMeta base e
+    let (m, o) := if e2 > 1 then Givaro.Model.GFqExtension.extMeta m1 e2 else (m1, o1)
+    let tot := kb * e * (if e2 > 1 then e2 else 1)
+    let specOk := card == p ^ tot && ch == p && ex == tot && od == (if e2 > 1 then e2 else e)
+    let modelOk := card == m.card && ch == m.char && ex == m.expo && od == o
+    if specOk && modelOk then "OK"
+    else diff (if !specOk && !modelOk then "BOTH" else if !specOk then "SPEC" else "MODEL")
+      s!"card={hexNat m.card},char={hexNat m.char},exponent={hexNat m.expo},order={hexNat o}" line
+  | _, _ => "BAD exm numbers | " ++ cut line
+
+/-- `exi P Kb Fb E nf f… = 1` — the modulus an `Extension` object chose, re-checked with Ben-Or's test -/
+def handleExi (args : List String) (line : String) : String :=
+  match natsOf args with
+  | some (p :: kb :: fb :: e :: nf :: f) =>
+    if f.length != nf then "BAD exi shape | " ++ cut line else
+    let B : Field := { p := p, k := kb, irred := fb }
+    if (pnorm f).length == e + 1 && isIrreducible B f then "OK"
+    else diff "SPEC" "the stored modulus is not irreducible of the advertised degree" line
+  | _ => "BAD exi numbers | " ++ cut line
+
+/-- `qdt T P K irred n a_1 b_1 … = bits maxdot d code expected` — GFqExt: `GFqExtFast::init` of the accumulated double
+    `Σ convert(a_t)·convert(b_t)`; model: the q-adic packing (`Model/GFqExt.lean`), specification: the field dot product,
+    for `n ≤ maxdot()` -/
+def handleQdt (args res : List String) (line : String) : String :=
+  match natsOf args, natsOf res with
+  | some (_ :: p :: k :: irred :: n :: ab), some [bits, maxdot, d, code, expd] =>
+    if ab.length != 2 * n then "BAD qdt operands | " ++ cut line else
+    let F : Field := { p := p, k := k, irred := irred }
+    if !(ab.all (· < F.q)) || n > maxdot then "PRE" else
+    let rec pairs : List Nat → List (Nat × Nat)
+      | a :: b :: more => (a, b) :: pairs more
+      | _ => []
+    let ps := pairs ab
+    let base := 2 ^ bits
+    let md := ps.foldl (fun t (a, b) => t + evalAt base (digits p k a) * evalAt base (digits p k b)) 0
+    let B : Field := { p := p, k := 1, irred := 0 }
+    let f := digits p (k + 1) irred
+    let mcode := undigits p (pmod B ((Givaro.Model.GFqExt.qadicDigits k md).map (· % p)) f)
+    let want := ps.foldl (fun t (a, b) => F.cadd t (F.cmul a b)) 0
+    let modelOk := bits == Givaro.Model.GFqExt.bits k && maxdot == Givaro.Model.GFqExt.maxdot p k && md == d && mcode == code
+    let specOk := code == want && expd == want
+    if specOk && modelOk then "OK"
+    else diff (if !specOk && !modelOk then "BOTH" else if !specOk then "SPEC" else "MODEL")
+      s!"d={hexNat md},code={hexNat mcode},want={hexNat want}" line
+  | _, _ => "BAD qdt numbers | " ++ cut line
+
 def lookup (key : String) : List FieldSt → Option FieldSt
   | [] => none
   | f :: fs => if f.key == key then some f else lookup key fs
@@ -434,6 +487,12 @@ partial def gfqLoop (h : IO.FS.Stream) (fields : List FieldSt) : IO Unit := do
       IO.println (handleExt args res line); gfqLoop h fields
     else if kind == "qad" then
       IO.println (handlePack 53 (args.drop 1) res line); gfqLoop h fields
+    else if kind == "exm" then
+      IO.println (handleExm args res line); gfqLoop h fields
+    else if kind == "exi" then
+      IO.println (handleExi args line); gfqLoop h fields
+    else if kind == "qdt" then
+      IO.println (handleQdt args res line); gfqLoop h fields
     else if kind == "krh" then
       IO.println (handleKrh args res line); gfqLoop h fields
     else if kind == "kro" then
